@@ -7,3 +7,6 @@ for _p in check_pipeline.PROPS:
 
 import check_cell
 CHECKS["C09"] = check_cell.run
+
+import check_group
+CHECKS["C13"] = check_group.run
